@@ -13,7 +13,88 @@ MT = {
     "fp": CheckFn("fp-maxtimes", "Model.CrossSemiring", "fp_check_maxtimes", C02.CF["real"].ty),
 }
 TOL = CheckFn("c11-tol", "Model.Tolerance", "tol_check", Tup(QQ, QQ, QQ, QQ, QQ))
-CHECKFNS = C01.CHECKFNS + C02.CHECKFNS + list(MT.values()) + C03.CHECKFNS + [TOL]
+VTOL = CheckFn("c11-vtol", "Model.Tolerance", "vtol_check", Tup(List(List(QQ)), List(QQ), List(QQ), QQ, QQ, List(QQ)))
+CHECKFNS = C01.CHECKFNS + C02.CHECKFNS + list(MT.values()) + C03.CHECKFNS + [TOL, VTOL]
+
+def solve_fixed_point(A, c):
+    """mu with mu = A mu + c, exact (Fractions, Gaussian elimination on I - A); Coq re-verifies mu = A mu + c"""
+    n = len(c)
+    M = [[(Fraction(1) if i == j else Fraction(0)) - A[i][j] for j in range(n)] + [c[i]] for i in range(n)]
+    for i in range(n):
+        piv = next(r for r in range(i, n) if M[r][i] != 0)
+        M[i], M[piv] = M[piv], M[i]
+        M[i] = [v / M[i][i] for v in M[i]]
+        for r in range(n):
+            if r != i and M[r][i] != 0:
+                M[r] = [vr - M[r][i] * vi for vr, vi in zip(M[r], M[i])]
+    return [M[i][n] for i in range(n)]
+
+def vtol_cases(rng, n, violations):
+    """The meaning of `tol` for VECTOR systems x = A x + c (C11_vector_stop_bound): one strongly connected component of
+    two or three nonterminals with nullary rules X_i -> c_i | a_ij X_j (the cycle i -> i+1 always present, further
+    entries at random; a rule X_i -> c_i is omitted when c_i = 0, so that nonterminal's block is ABSENT from the first
+    iterate), or ONE nonterminal with an external node over a domain of size 2 or 3 (a BLOCK: x_v = sum_u a[v,u] x_u + c_v).
+    Max row sum 15/16 .. 63/64 (dyadic entries: exact in float64), entries of c from 0 to 2^40.  Every component of the
+    result of sum_products(method='fixed-point', tol) is judged in Coq by vtol_check: within
+    [mu_i - tol/(1-||A||) - delta, mu_i + delta], mu the exact fixed point (re-verified in Coq), delta = max(mu)/10^12."""
+    import fggs, torch
+    vals, metas = [], []
+    for i in range(n):
+        dim = rng.choice([2, 3])
+        block = (i % 3 == 2)
+        den = rng.choice([16, 32, 64])
+        A = [[Fraction(0)] * dim for _ in range(dim)]
+        for r in range(dim):
+            js = {(r + 1) % dim} | {j for j in range(dim) if rng.random() < 0.5}
+            js = sorted(js)
+            total = den - rng.choice([1, 1, 2]) if r == 0 else rng.randint(den // 2, den - 1)   # row 0 carries the norm
+            cuts = sorted(rng.sample(range(1, total), len(js) - 1)) if len(js) > 1 else []
+            parts = [b - a for a, b in zip([0] + cuts, cuts + [total])]
+            for j, pnum in zip(js, parts): A[r][j] = Fraction(pnum, den)
+        c = [Fraction(rng.choice([0, 1, 3, 5])) * Fraction(2) ** rng.choice([0, 10, 20, 30, 40]) for _ in range(dim)]
+        if all(v == 0 for v in c): c[rng.randrange(dim)] = Fraction(2) ** 20
+        tol = Fraction(1, 10 ** rng.choice([4, 6, 8]))
+        kmax = 20000
+        g = fggs.FGG("X0")
+        if block:
+            g.new_finite_domain("D", list(range(dim)))
+            r1 = fggs.Graph(); v = r1.new_node("D"); r1.ext = [v]; r1.new_edge("c", [v], is_terminal=True); g.new_rule("X0", r1)
+            r2 = fggs.Graph(); v = r2.new_node("D"); u = r2.new_node("D"); r2.ext = [v]
+            r2.new_edge("a", [v, u], is_terminal=True); r2.new_edge("X0", [u], is_nonterminal=True); g.new_rule("X0", r2)
+            g.new_finite_factor("c", torch.tensor([float(x) for x in c], dtype=torch.float64))
+            g.new_finite_factor("a", torch.tensor([[float(x) for x in row] for row in A], dtype=torch.float64))
+        else:
+            for r in range(dim):
+                if c[r] != 0:
+                    r1 = fggs.Graph(); r1.new_edge("c%d" % r, [], is_terminal=True); g.new_rule("X%d" % r, r1)
+                for j in range(dim):
+                    if A[r][j] != 0:
+                        r2 = fggs.Graph(); r2.new_edge("a%d_%d" % (r, j), [], is_terminal=True); r2.new_edge("X%d" % j, [], is_nonterminal=True)
+                        g.new_rule("X%d" % r, r2)
+            for r in range(dim):
+                if c[r] != 0: g.new_finite_factor("c%d" % r, torch.tensor(float(c[r]), dtype=torch.float64))
+                for j in range(dim):
+                    if A[r][j] != 0: g.new_finite_factor("a%d_%d" % (r, j), torch.tensor(float(A[r][j]), dtype=torch.float64))
+        case = dict(shape=("one nonterminal, block of %d" % dim) if block else ("%d scalar nonterminals" % dim),
+                    A=[[str(x) for x in row] for row in A], c=[str(x) for x in c], tol=str(tol), kmax=kmax)
+        try:
+            with warnings.catch_warnings(record=True) as wl:
+                warnings.simplefilter("always")
+                zs = fggs.sum_products(g, method="fixed-point", semiring=fggs.RealSemiring(dtype=torch.float64), tol=float(tol), kmax=kmax)
+            byname = {k.name: zs[k] for k in zs if k.is_nonterminal}
+            if block:
+                obs = [Fraction(float(x)) for x in byname["X0"].to_dense().reshape(-1).tolist()]
+            else:
+                obs = [Fraction(float(byname["X%d" % r].to_dense())) for r in range(dim)]
+            warned = any("maximum iteration" in str(w.message) for w in wl)
+        except Exception as e:
+            violations.append(Violation("sum_products raised %r" % (e,), case=case, corr="corr:vtol")); continue
+        if warned:
+            violations.append(Violation("fixed-point warned (kmax=%d) on a contraction with norm < 1" % kmax, case=case, corr="corr:vtol (C11_vector_fixed_point_run)")); continue
+        mu = solve_fixed_point(A, c)
+        vals.append((A, c, mu, tol, max(mu) / 10 ** 12, obs))
+        metas.append(dict(case, observed=[float(x) for x in obs], least_fixed_point=[float(x) for x in mu]))
+    return vals, metas
 
 def tol_cases(rng, n, violations):
     """The meaning of `tol` (fixed-point): an ABSOLUTE stopping distance, whatever the magnitude of the values.
@@ -200,6 +281,16 @@ def run(tier, seed):
         violations.append(Violation("fixed-point result is not within tol/(1-a) of the least fixed point (verdict %d of tol_check): tol is not an absolute stopping distance" % c,
                                     case=m, observed=m["observed"], expected=m["least_fixed_point"], oracle="tol_check (C11_fixed_point_stop_bound, C11_tol_check_rejects)",
                                     corr="C11 / corr:tol", call="sum_product(method='fixed-point', tol=%s)" % m["tol"], failing_input_found=(c == 1)))
+    # the meaning of tol, vector / block systems
+    vvals, vmetas = vtol_cases(rng, 9 if tier == "quick" else 120, violations)
+    vcodes, a = run_model(VTOL, vvals, seed=seed, coq_sample=3, tag="c11vtol"); nk += a; total += len(vcodes)
+    vshapes = {}
+    for m, c in zip(vmetas, vcodes):
+        vshapes[m["shape"]] = vshapes.get(m["shape"], 0) + 1
+        if c == 0: continue
+        violations.append(Violation("fixed-point result of a vector system is not within tol/(1-||A||) of the least fixed point (verdict %d of vtol_check)" % c,
+                                    case=m, observed=m["observed"], expected=m["least_fixed_point"], oracle="vtol_check (C11_vector_stop_bound, C11_vtol_check_rejects)",
+                                    corr="C11 / corr:vtol", call="sum_products(method='fixed-point', tol=%s)" % m["tol"], failing_input_found=(c == 1)))
     # gradients across method x j_precompute x semiring (C03's dual-number check)
     gvals = []; gmeta = []; f9_skipped = 0
     for gi in range(max(6, n // 2)):
@@ -253,6 +344,7 @@ def run(tier, seed):
                rule="random FGG specs (half non-recursive, half recursive) x {Real f64, Real f32, Log, Viterbi(real log-weights, max-times reading), Bool} x {fixed-point, newton, newton+j_precompute, linear} x {python, python -OO}; every result judged in Coq against the exact model; distinct_nontrivial = distinct specs",
                kernel_reevaluated=nk,
                samples=[dict(info=repr(info[0][1:4]), result=res_n[0])],
+               tol_scalar_cases=len(tvals), tol_vector_cases=len(vvals), tol_vector_shapes=vshapes,
                gradient_cases=len(gvals), jprecompute_gradient_exceptions=f9_skipped,
                open_items=["gradients are judged on C03's j_precompute-friendly grammar family (rules with one or two edges); on other shapes j_precompute=True is covered by the known findings F9"])
     return cov, violations
